@@ -1,11 +1,20 @@
 """C02 — IBAN check digits are computed correctly, uniquely and canonically."""
 from __future__ import annotations
 
+from ..srcmodel import AnalysisError
+
 from ..vmodel import IbanModel
 from .. import iban_rules as R
 
 
 def run(ctx, report):
+    # premise of the symbolic model below (it starts from the cleaned text): the object carries clean(raw), and nothing reads the
+    # raw parameter again (what clean() removes is C10's / C01's concern, not this property's).
+    from .c10 import normalisation_rules
+    try:
+        normalisation_rules(ctx, report, "R02-P0", parts=("norm",))
+    except AnalysisError as e:
+        report.notes.append(f"normalisation premise not decided: {e}")
     m = IbanModel(ctx, with_validate=False)
     report.explanation = (
         "The two arithmetic conditions of the validator are extracted from the symbolic paths as opaque terms and evaluated for every residue: "
